@@ -72,6 +72,15 @@ func (wc *watchClient) Watch(ctx context.Context, key string, opts ...clientv3.O
 	w.id = wc.c.nextWatch
 	wc.c.nextWatch++
 	wc.c.mu.Unlock()
+	if op.Rev() > 0 && op.Rev() < s.compacted {
+		// the requested start revision has been compacted: etcd answers with a cancelled response that
+		// carries the compact revision (resp.Err() == ErrCompacted) and closes the stream
+		cr := s.compacted
+		s.mu.Unlock()
+		w.out <- clientv3.WatchResponse{Canceled: true, CompactRevision: cr, Header: pb.ResponseHeader{Revision: s.Rev()}}
+		close(w.out)
+		return w.out
+	}
 	if op.Rev() > 0 {
 		w.minRev = op.Rev()
 		// catching up from a past revision: etcd's unsynced-watcher sync sends the matching events of all
